@@ -22,7 +22,8 @@ pub struct Case {
     pub combo: u64,
     pub nla_seed: u64,
     /// 0: conforming server; 1: the server (or a man in the middle) answers the negotiation with a selection that
-    /// leaves the transport in clear (`selected`, no TLS); 2: NLA with an unusual CHALLENGE flag set (`flags`)
+    /// leaves the transport in clear (`selected`, no TLS); 2: NLA with an unusual CHALLENGE flag set (`flags`);
+    /// 3: conforming server, reached by the SECOND connect of a Connector whose first connect failed at licensing
     pub server: u8,
     pub flags: u32,
 }
@@ -65,11 +66,14 @@ pub fn make_case(combo: u64, idx: u64, seed: u64) -> Case {
             case.server = 1;
             case.selected = *r.pick(&[0u32, 0, 0, 4, 8, 16, 0x20, 0x80000000]);
         }
+        2 => {
+            case.server = 3;
+        }
         1 => {
             if case.cfg.nla {
                 case.server = 2;
                 case.selected = 2;
-                case.flags = *r.pick(&[0xE28A8235u32 & !1, 0xE28A8235 & !1 | 2, 0xE28A8235 & !0x0200_0000, 0xE28A8235 & !0x30, 0xE28A8235 & !0x4000_0000, 0xE28A8235 & !0x0008_0000, 0x201, 0x202, 0, 0xffff_ffff, 0xE28A8235 & !0x0080_0000]);
+                case.flags = *r.pick(&[0xE28A8235u32 & !1, 0xE28A8235 & !1 | 2, 0xE28A8235 & !0x0200_0000, 0xE28A8235 & !0x30, 0xE28A8235 & !0x20, 0x60888215, 0xE28A8235 & !0x4000_0000, 0xE28A8235 & !0x0008_0000, 0x201, 0x202, 0, 0xffff_ffff, 0xE28A8235 & !0x0080_0000]);
             }
         }
         _ => {}
@@ -112,10 +116,32 @@ pub fn check_case(c: &Case, rep: &mut Report) {
         if c.server == 1 {
             s.tls_policy = crate::server::TlsPolicy::Never;
         }
+        // a server presenting unusual flags does not insist on being able to unseal what the client sends
+        s.lenient_pubkey = c.server == 2;
     });
     let probe = d.clone();
     let cfg = c.cfg.clone();
-    let res = mon::guarded(move || client::connect_real(&cfg, d.clone()).map(|_| ()).map_err(|e| client::err_kind(&e)));
+    let reuse = c.server == 3;
+    let sel = c.selected;
+    let res = mon::guarded(move || {
+        if !reuse {
+            return client::connect_real(&cfg, d.clone()).map(|_| ()).map_err(|e| client::err_kind(&e));
+        }
+        // one Connector, two connects: the first server breaks off at licensing, the second is the conforming one
+        let mut k = client::connector(&cfg);
+        let mut p1 = Profile::default();
+        p1.selected_protocol = sel;
+        let d1 = Duplex::new(p1);
+        let mut nr1 = Rng::new(0x1717);
+        let nla1 = gen::nla_cfg(&mut nr1, &cfg);
+        d1.with(|s| {
+            s.tls_identity = 2;
+            s.nla_cfg = nla1;
+            s.inner_hook = Some(Box::new(|k: &str, _b: &crate::refs::build::B| if k == "license" { Some(vec![0xff, 0x03, 0x00, 0x00]) } else { None }));
+        });
+        let _ = k.connect(d1.clone()).map(|_| ());
+        k.connect(d.clone()).map(|_| ()).map_err(|e| client::err_kind(&e))
+    });
     let j = describe(c);
     let connect = match res {
         Err(p) => {
@@ -163,7 +189,7 @@ pub fn check_case(c: &Case, rep: &mut Report) {
                 }
             }
         }
-        if c.server != 0 {
+        if c.server != 0 && c.server != 3 {
             // a server outside the rules: only the negative part (the secrets appear nowhere else) is judged
             return;
         }
@@ -219,7 +245,7 @@ pub fn check_case(c: &Case, rep: &mut Report) {
         Ok(()) => rep.hist("connected"),
         Err(e) => {
             rep.hist(&format!("connect-error:{}", e));
-            if c.server == 0 {
+            if c.server == 0 || c.server == 3 {
                 rep.inconclusive(&format!("connect failed ({}) in mode {}", e, mode));
             }
         }
@@ -227,7 +253,7 @@ pub fn check_case(c: &Case, rep: &mut Report) {
     if connect.is_ok() || c.server != 0 {
         rep.nontrivial(fnv(j.to_string().as_bytes()));
     }
-    rep.set("server_behaviours", ["conforming", "selection-leaves-transport-in-clear", "unusual-challenge-flags"][c.server as usize].to_string());
+    rep.set("server_behaviours", ["conforming", "selection-leaves-transport-in-clear", "unusual-challenge-flags", "second-connect-of-a-connector-whose-first-failed"][c.server as usize].to_string());
     rep.set("modes", mode.clone());
     if rep.want_sample() {
         let jj = j.clone();
